@@ -66,7 +66,7 @@ func c03Compare(ref *lexgen.RefResult, real *realLex, input string) (diff string
 }
 
 func c03Child(c *mon.Child) {
-	nMaps := c.N(200, 600)
+	nMaps := c.N(200, 2500)
 	nInputs := c.N(100, 300)
 	for mi := 0; mi < nMaps; mi++ {
 		r := c.RNG("map", mi)
